@@ -94,11 +94,16 @@ def _content(path, width, kind, number, param_value):
         elif "Enum" in names:
             return str(kind[names.index("Enum")][1][0][1]).rjust(width).encode(), kind[names.index("Enum")][1][0][0]
         else:
-            v = number % (10 ** min(width, 6))
+            # every column of the field carries a digit: a column moved to / from a neighbouring field changes the value
+            v = int((str(number) * (width // len(str(number)) + 1))[:width])
         return str(v).rjust(width).encode(), v
     if last == "AsciiFloat":
-        v = float(SMALL[name]) if name in SMALL else float(number % 10**min(max(width - 3, 1), 6)) + 0.5
-        text = repr(v).rjust(width)
+        if name in SMALL or width < 6:
+            v = float(SMALL[name]) if name in SMALL else float(number % 10**min(max(width - 3, 1), 6)) + 0.5
+            text = repr(v).rjust(width)
+        else:  # every column carries a character of the number
+            text = (("%d." % (number % 10**3)) + "5432198765" * (width // 10 + 1))[:width]
+            v = float(text)
         if len(text) > width:
             v = float(number % 10**max(width - 2, 1))
             text = ("%d" % v).rjust(width)
